@@ -75,6 +75,25 @@ def service_contract(cfg):
     return c
 
 
+def gates_contract(cfg):
+    """the timing gates of the multiplexer cannot close for ever: once a gate is closed it reopens within its own window
+    whatever the bank machines request (a gate that counted *offered* instead of *accepted* commands would starve itself)"""
+    cfg = dict(cfg)
+    c = c02.ctrl_contract(cfg)
+    c.name = "MultiplexerGates"
+    c.cfg = dict(cfg)
+    c.ensures_.clear()
+    c.covers.clear()
+    h = c.parts["h"]
+    ML = h.ML
+    t = h.settings.timing
+    for nm, key, bound in (("tFAW", "tfawcon", (t.tFAW or 0) + 2), ("tRRD", "trrdcon", (t.tRRD or 0) + 2), ("tCCD", "tccdcon", (t.tCCD or 0) + 2)):
+        con = ML[key]
+        c.response("gate_%s_reopens" % nm, lambda f, con=con: Not(f.b(con.ready)), lambda f, con=con: f.b(con.ready), bound)
+    # (tWTR is re-armed by every accepted write, so it reopens only after the direction switch: part of S)
+    return c
+
+
 def crossbar_contract(cfg):
     """per-bank arbiter of the real crossbar: when the bank is neither valid nor locked the grant moves to a requesting
     master (round robin: the current holder has the lowest priority), otherwise it is frozen"""
@@ -204,6 +223,7 @@ def tasks(tier):
         out.append(dict(fn="service_contract", cfg=cfg, modes=["inductive", "response"], weight=30, timeout_ms=2400000))
     # the refresher guarantees used for the composition, for the same controller configuration (C04 obligations)
     out.append(dict(fn="grant_contract", cfg=dict(base, G=G), modes=["inductive", "response"], weight=30, timeout_ms=900000))
+    out.append(dict(fn="gates_contract", cfg=dict(base, tFAW=6, tRRD=2), modes=["inductive", "response"], weight=10, timeout_ms=900000))
     rcfg = dict(tRP=2, tRFC=base.get("tRFC", 3), tREFI=100, postponing=1, G=G)       # the refresher of the configuration above
     out.append(dict(fn="refresher_base", cfg=rcfg, modes=["inductive", "response", "window"], weight=5))
     out.append(dict(fn="refresher_busy", cfg=rcfg, modes=["inductive"], weight=20, timeout_ms=900000))
